@@ -53,12 +53,36 @@ def generate(tier, seed):
                 steps += [rnd.choice(al)] + block
             cases.append(case("eng", sp, adapter_M(lines), "-", steps))
             dist["random"] += 1
+    # role definitions of DIFFERENT arity (g = _, _ ; g2 = _, _, _): the same pair of names is linked under g in the
+    # default domain and under g2 in domain d1, so the per-domain graphs never overlap (outside the known shared-manager class)
+    m = And(Call("g", V("r", "sub"), V("p", "sub")), Call("g2", V("r", "obj"), V("p", "obj"), V("r", "dom")), Eq(V("r", "act"), V("p", "act")))
+    sp = "r=sub,dom,obj,act;p=sub,obj,act;g=2;g2=3;e=AO;m={%s}" % m
+    pairs = [(a, b) for a in U for b in U if a != b]
+    al = []
+    for a, b in pairs:
+        al += [A("g", "g", [a, b]), R("g", "g", [a, b]), A("g", "g2", [a, b, "d1"]), R("g", "g2", [a, b, "d1"])]
+    al += [RM("g", "g2", [["x", "y", "d1"], ["y", "z", "d1"]]), RF("g", "g2", 0, ["x"]), RF("g", "g", 0, ["x"]), "BR"]
+    reqs = [[s, "d1", o, "read"] for s in U for o in U]
+    block = [Q_e(r) for r in reqs] + ["?ga:g"]
+    lines = [["p", "p", "y", "y", "read"], ["p", "p", "z", "x", "read"], ["g", "g", "x", "y"], ["g", "g2", "x", "y", "d1"], ["g", "g2", "y", "z", "d1"]]
+    dist["mixed_arity"] = 0
+    for k in (1, 2):
+        hs = list(itertools.product(al, repeat=k))
+        if k == 2 and tier == "quick":
+            hs = rnd.sample(hs, 300)
+        for h in hs:
+            steps = []
+            for o in h:
+                steps += [o] + block
+            cases.append(case("eng", sp, adapter_M(lines), "-", steps))
+            dist["mixed_arity"] += 1
     return {
         "cases": cases,
         "exhaustive": False,
         "rule": ("user-role + resource-role models (with and without a domain argument) whose matcher calls g on subjects and g2 on objects, both definitions "
                  "drawing links from the SAME three names; every history of <= 2 (thorough: 3) additions/removals under g and g2 (and explicit rebuilds), seeded "
-                 "random ones up to length 20; after every call all 9 requests and the stored grouping rules. non-trivial = links exist under both definitions"),
+                 "random ones up to length 20; a model whose two definitions have different arities (g binary in the default domain, g2 ternary in d1) "
+                 "with single, batch and filtered removals under each; after every call all 9 requests and the stored grouping rules. non-trivial = links exist under both definitions"),
         "distribution": dist,
     }
 
